@@ -57,6 +57,11 @@ def run(ctx):
 
         res.rules["E-FRESHCOPY"] = "copy() shares no incidence list / table with the original (the per-order degree matrices are computed from them)"
         check_deepcopy(ctx, res, "Hypergraph.copy")
+    # the per-order matrices are computed from get_edges(order=...) / get_weights(order=...): a query that changes what a later
+    # query of another order returns (a shared per-order bucket extended in place) makes the matrices depend on the call history
+    for q_ in ("Hypergraph.get_edges", "Hypergraph.get_weights"):
+        with res.guard(f"E-PURE of {q_}"):
+            check_pure(ctx, eff, res, q_, roots=("self",))
     with res.guard("E-PURE of linalg.binary_incidence_matrix"):
         bi = ctx.require("linalg.binary_incidence_matrix")
         check_pure(ctx, eff, res, "linalg.binary_incidence_matrix", roots=(bi.params[0].arg,))
